@@ -8,7 +8,7 @@ CONSTANTS
   EnableDebugWrites = FALSE
   SrcVals = {0}
   Dts = {1, 2, 3, 5}
-  CfgSel = "base"
+  CfgSel = "fb1"
 VIEW View
 CHECK_DEADLOCK FALSE
 INVARIANTS
